@@ -50,7 +50,7 @@ func (s *session) waitFinished(names []string, d time.Duration) []string {
 }
 
 // issue one request of the given kind and log call/ret (with latency and a hang watchdog)
-func (s *session) timedRequest(r *rig.Rig, c, id, ev string, np int) {
+func (s *session) timedRequest(r *rig.Rig, c, id, ev string, np int) (hung bool) {
 	ctr := "x-" + id
 	pod := &api.PodSandbox{Id: id, Name: "pod"}
 	cont := &api.Container{Id: ctr, PodSandboxId: id, Name: "ctr"}
@@ -97,7 +97,7 @@ func (s *session) timedRequest(r *rig.Rig, c, id, ev string, np int) {
 		}
 		done <- res{err, tags}
 	}()
-	watchdog := time.Duration(np)*faultTimeout*20 + 2*time.Second
+	watchdog := time.Duration(np)*faultTimeout*8 + 2*time.Second
 	select {
 	case x := <-done:
 		ms := time.Since(t0).Milliseconds()
@@ -110,7 +110,9 @@ func (s *session) timedRequest(r *rig.Rig, c, id, ev string, np int) {
 	case <-time.After(watchdog):
 		s.ev("ret", "c", c, "req", id, "event", ev, "err", true, "errtext", "watchdog: request did not return",
 			"veto", false, "tags", []string{}, "ms", int(watchdog.Milliseconds()), "hung", true)
+		return true
 	}
+	return false
 }
 
 func (s *session) faultRun(r *rig.Rig, w *rec.Writer, sc FaultScenario) error {
@@ -213,11 +215,18 @@ func (s *session) faultRun(r *rig.Rig, w *rec.Writer, sc FaultScenario) error {
 		},
 	}
 	defer func() {
-		for _, p := range stubs {
-			p.Stub.Stop()
+		cleanup := func() {
+			for _, p := range stubs {
+				p.Stub.Stop()
+			}
+			if peer != nil {
+				peer.Close()
+			}
 		}
-		if peer != nil {
-			peer.Close()
+		if s.wedged {
+			go cleanup()
+		} else {
+			cleanup()
 		}
 	}()
 	for pos := 0; pos < np; pos++ {
@@ -261,7 +270,13 @@ func (s *session) faultRun(r *rig.Rig, w *rec.Writer, sc FaultScenario) error {
 	case "cut-request":
 		peer.Cut.CutAfterRead(int64(sc.K))
 	}
-	s.timedRequest(r, "c1", fmt.Sprintf("q%d-1", s.run), sc.Req, np)
+	if s.timedRequest(r, "c1", fmt.Sprintf("q%d-1", s.run), sc.Req, np) {
+		// the adaptation is wedged: record that, leave its teardown to a goroutine that may never finish
+		s.ev("End", "stuck", []string{}, "hung", []string{}, "peer_read", 0, "peer_written", 0, "faulty", peerName, "fired", false)
+		vhook.Set(nil)
+		s.wedged = true
+		return w.WriteScenario(s.log.Events())
+	}
 	// a second request: the dropped plugin must not be reached any more, the others must be
 	s.timedRequest(r, "c1", fmt.Sprintf("q%d-2", s.run), sc.Req, np)
 	rd, wr := peer.Cut.Counts()
@@ -331,8 +346,13 @@ func RunFaults(in, out string, seed int64, skip int) (int, error) {
 				return 0, err
 			}
 			s.installSync(r)
+			s.wedged = false
 			err = s.faultRun(r, w, fs)
-			r.Close()
+			if s.wedged {
+				go r.Close()
+			} else {
+				r.Close()
+			}
 			if err == nil {
 				break
 			}
